@@ -246,6 +246,19 @@ impl Model {
         h.pending.insert(id);
         Disp::Accepted
     }
+    /// Disposition `ingest` would return, without changing the model.
+    fn clone_peek(&self, head: usize, id: Hash, kind: IntentKind) -> Disp {
+        let h = &self.heads[head];
+        if h.committed.contains(&id) {
+            Disp::Duplicate
+        } else if !h.pol.accepts(kind) {
+            Disp::Rejected
+        } else if h.pending.contains(&id) {
+            Disp::Duplicate
+        } else {
+            Disp::Accepted
+        }
+    }
     fn expect_tick(&self) -> TickExp {
         let mut commits = Vec::new();
         for (i, h) in self.heads.iter().enumerate() {
@@ -426,9 +439,14 @@ fn step_ingest(cx: &Ctx, w: &mut World, s: Sym, check_noop: bool, out: &mut Out)
     let (env, hk, kind) = cx.cfg.envelope(s);
     let id = env.ingress_id();
     let hi = w.m.head_ix(&hk);
-    let before = if check_noop { Some(full_fp(&w.rt)) } else { None };
     let was_pending = w.m.heads[hi].pending.contains(&id);
     let was_committed = w.m.heads[hi].committed.contains(&id);
+    let predicted = w.m.clone_peek(hi, id, kind);
+    let before = if check_noop && predicted != Disp::Accepted {
+        Some(full_fp(&w.rt))
+    } else {
+        None
+    };
     let want = w.m.ingest(hi, id, kind);
     let got = w.rt.runtime.ingest(env);
     out.evals += 1;
@@ -790,51 +808,82 @@ type Memo = Vec<Mutex<HashMap<[u8; 32], ([u8; 32], [u8; 32], String)>>>;
 
 /// In state `w`: for every multiset, all distinct permutations give equal canonical states and
 /// equal following passes.
+///
+/// Execution is shared through a trie.  A node is the ordered list of submissions ACCEPTED so far
+/// (its real world is kept).  A refused submission (duplicate / policy rejection) must leave the full
+/// fingerprint unchanged — checked on the real system for every (node, symbol) pair that occurs —
+/// and therefore stays at its node.  Every distinct permutation of every multiset is walked through
+/// the trie; every distinct end node gets one canonical fingerprint and one real scheduler pass
+/// (shared across states through `memo`, keyed by the FULL fingerprint).
 fn oracle(cx: &Ctx, w: &World, xs: &[Vec<Sym>], memo: &Memo, path: &[String], out: &mut Out) {
-    // `World` holds a `Cell` (not `Sync`): every parallel task owns its clone.
-    let tasks: Vec<(World, &Vec<Sym>)> = xs.iter().map(|x| (w.clone(), x)).collect();
-    let outs: Vec<Out> = tasks
-        .into_par_iter()
-        .map(|(w, x)| {
-            let mut out = Out::default();
-            oracle_one(cx, &w, x, memo, path, &mut out);
-            out
-        })
-        .collect();
-    for o in outs {
-        out.merge(o);
+    struct Node {
+        world: World,
+        next: BTreeMap<Sym, usize>,
     }
-}
-
-fn oracle_one(cx: &Ctx, w: &World, x: &Vec<Sym>, memo: &Memo, path: &[String], out: &mut Out) {
-    {
-        let perms = distinct_perms(x);
-        let mut first: Option<([u8; 32], [u8; 32], String, Vec<Sym>)> = None;
-        let mut effective = 0usize;
-        for p in &perms {
-            let mut w2 = w.clone();
-            let mut accepted = 0;
-            for s in p {
-                if step_ingest(cx, &mut w2, *s, false, out) == Disp::Accepted {
-                    accepted += 1;
+    let mut nodes: Vec<Node> = vec![Node {
+        world: w.clone(),
+        next: BTreeMap::new(),
+    }];
+    // per multiset: (permutation, end node, number of newly accepted submissions)
+    let mut walks: Vec<Vec<(Vec<Sym>, usize, usize)>> = Vec::with_capacity(xs.len());
+    for x in xs {
+        let mut v = Vec::new();
+        for p in distinct_perms(x) {
+            let mut cur = 0usize;
+            let mut acc = 0usize;
+            for s in &p {
+                let known = nodes[cur].next.get(s).copied();
+                let nxt = match known {
+                    Some(n) => n,
+                    None => {
+                        let mut w2 = nodes[cur].world.clone();
+                        let d = step_ingest(cx, &mut w2, *s, true, out);
+                        if w2.m.desync {
+                            return; // already reported
+                        }
+                        let n = if d == Disp::Accepted {
+                            nodes.push(Node {
+                                world: w2,
+                                next: BTreeMap::new(),
+                            });
+                            nodes.len() - 1
+                        } else {
+                            cur
+                        };
+                        nodes[cur].next.insert(*s, n);
+                        n
+                    }
+                };
+                if nxt != cur {
+                    acc += 1;
                 }
-                if w2.m.desync {
-                    break;
-                }
-            }
-            if w2.m.desync {
-                break;
+                cur = nxt;
             }
             out.traces += 1;
+            v.push((p, cur, acc));
+        }
+        walks.push(v);
+    }
+    // one canonical fingerprint + one real pass per distinct end node, in parallel (`World` holds a
+    // `Cell`, so every task owns its clone)
+    let needed: BTreeSet<usize> = walks.iter().flatten().map(|t| t.1).collect();
+    let tasks: Vec<(usize, World)> = needed
+        .iter()
+        .map(|i| (*i, nodes[*i].world.clone()))
+        .collect();
+    let results: Vec<(usize, ([u8; 32], [u8; 32], String), Out)> = tasks
+        .into_par_iter()
+        .map(|(i, mut w2)| {
+            let mut o = Out::default();
             let full = full_fp(&w2.rt);
             let fh = mc::h(format!("{}\n{}", full.0, full.1).as_bytes());
             let shard = &memo[(fh[0] as usize) % memo.len()];
             let cached = shard.lock().unwrap().get(&fh).cloned();
-            let (canon, tick, label) = match cached {
+            let v = match cached {
                 Some(c) => c,
                 None => {
-                    // Two tasks may race to the same end state: only the one whose insert wins reports
-                    // its observations, so every count is a function of the set of distinct states.
+                    // Two tasks may race to the same state: only the one whose insert wins reports its
+                    // observations, so every count is a function of the set of distinct states.
                     let mut tmp = Out::default();
                     let canon = canon_fp(cx, &w2.rt, &full, &mut tmp);
                     let obs = step_tick(cx, &mut w2, &mut tmp);
@@ -843,37 +892,48 @@ fn oracle_one(cx: &Ctx, w: &World, x: &Vec<Sym>, memo: &Memo, path: &[String], o
                     if !g.contains_key(&fh) {
                         g.insert(fh, v.clone());
                         drop(g);
-                        out.merge(tmp);
+                        o.merge(tmp);
                     }
                     v
                 }
             };
-            effective = effective.max(accepted);
-            match &first {
-                None => first = Some((canon, tick, label, p.clone())),
-                Some((c0, t0, l0, p0)) => {
-                    let case = json!({"config": cx.cfg.name, "path": path,
-                        "perm_a": p0.iter().map(|s| sym_name(*s)).collect::<Vec<_>>(),
-                        "perm_b": p.iter().map(|s| sym_name(*s)).collect::<Vec<_>>()});
-                    let polsig = format!("{:?}", cx.cfg.heads.iter().map(|h| h.2).collect::<Vec<_>>());
-                    if *c0 != canon {
-                        out.v(
-                            format!("order-freedom:pending-state-depends-on-arrival-order:policies={polsig}"),
-                            "states differ beyond submission generations / stored target form",
-                            case.clone(),
-                        );
-                    }
-                    if *t0 != tick {
-                        out.v(
-                            format!("order-freedom:committed-tick-depends-on-arrival-order:policies={polsig}"),
-                            format!("{l0} vs {label}"),
-                            case,
-                        );
-                    }
+            (i, v, o)
+        })
+        .collect();
+    let mut obs: BTreeMap<usize, ([u8; 32], [u8; 32], String)> = BTreeMap::new();
+    for (i, v, o) in results {
+        obs.insert(i, v);
+        out.merge(o);
+    }
+    let polsig = format!("{:?}", cx.cfg.heads.iter().map(|h| h.2).collect::<Vec<_>>());
+    for (x, v) in xs.iter().zip(&walks) {
+        let Some((p0, n0, _)) = v.first() else { continue };
+        let (c0, t0, l0) = &obs[n0];
+        let mut effective = 0;
+        for (p, n, acc) in v {
+            effective = effective.max(*acc);
+            let (c, t, l) = &obs[n];
+            if c != c0 || t != t0 {
+                let case = json!({"config": cx.cfg.name, "path": path,
+                    "perm_a": p0.iter().map(|s| sym_name(*s)).collect::<Vec<_>>(),
+                    "perm_b": p.iter().map(|s| sym_name(*s)).collect::<Vec<_>>()});
+                if c != c0 {
+                    out.v(
+                        format!("order-freedom:pending-state-depends-on-arrival-order:policies={polsig}"),
+                        "states differ beyond submission generations / stored target form",
+                        case.clone(),
+                    );
+                }
+                if t != t0 {
+                    out.v(
+                        format!("order-freedom:committed-tick-depends-on-arrival-order:policies={polsig}"),
+                        format!("{l0} vs {l}"),
+                        case,
+                    );
                 }
             }
         }
-        if perms.len() >= 2 {
+        if v.len() >= 2 {
             out.c("multisets_with_2plus_orders_compared");
             if effective >= 2 {
                 out.c("multisets_with_2plus_orders_and_2plus_new_submissions");
@@ -883,6 +943,10 @@ fn oracle_one(cx: &Ctx, w: &World, x: &Vec<Sym>, memo: &Memo, path: &[String], o
             }
         }
     }
+    out.counters
+        .entry("oracle_trie_nodes")
+        .and_modify(|n| *n += nodes.len() as u64)
+        .or_insert(nodes.len() as u64);
 }
 
 // ---------------------------------------------------------------------------------------------
@@ -908,51 +972,100 @@ struct BfsResult {
     capped: bool,
 }
 
-fn explore(r: &Report, cx: &Ctx, xs: &[Vec<Sym>], memo: &Memo, budget_frac: f64) -> BfsResult {
-    let cfg = &cx.cfg;
-    let mut ops: Vec<Op> = (0..4u8)
-        .map(|i| {
-            Op::Ingest(Sym {
-                intent: i,
-                form: cfg.f1(i),
+/// One configuration's search state.
+struct Shared {
+    cx: Ctx,
+    xs: Vec<Vec<Sym>>,
+    ops: Vec<Op>,
+}
+
+/// One configuration's search state.
+struct Search {
+    sh: Shared,
+    seen: BTreeSet<[u8; 32]>,
+    frontier: Vec<(World, Vec<String>)>,
+    res: BfsResult,
+    finished: bool,
+}
+
+fn state_key(w: &World) -> [u8; 32] {
+    let f = full_fp(&w.rt);
+    mc::h(format!("{}\n{}", f.0, f.1).as_bytes())
+}
+
+impl Search {
+    fn new(cx: Ctx, xs: Vec<Vec<Sym>>) -> Search {
+        let mut ops: Vec<Op> = (0..4u8)
+            .map(|i| {
+                Op::Ingest(Sym {
+                    intent: i,
+                    form: cx.cfg.f1(i),
+                })
             })
-        })
-        .collect();
-    ops.push(Op::Tick);
-    ops.push(Op::Ingest(Sym { intent: 4, form: 0 }));
-    let w0 = build_world(cfg);
-    let key = |w: &World| {
-        let f = full_fp(&w.rt);
-        mc::h(format!("{}\n{}", f.0, f.1).as_bytes())
-    };
-    let mut seen = BTreeSet::new();
-    seen.insert(key(&w0));
-    let mut res = BfsResult {
-        states: 1,
-        transitions: 0,
-        max_depth: 0,
-        capped: false,
-    };
-    let mut frontier: Vec<(World, Vec<String>)> = vec![(w0, Vec::new())];
-    for depth in 0..=cfg.depth {
-        if frontier.is_empty() {
+            .collect();
+        ops.push(Op::Tick);
+        ops.push(Op::Ingest(Sym { intent: 4, form: 0 }));
+        let w0 = build_world(&cx.cfg);
+        let mut seen = BTreeSet::new();
+        seen.insert(state_key(&w0));
+        Search {
+            sh: Shared { cx, xs, ops },
+            seen,
+            frontier: vec![(w0, Vec::new())],
+            res: BfsResult {
+                states: 1,
+                transitions: 0,
+                max_depth: 0,
+                capped: false,
+            },
+            finished: false,
+        }
+    }
+}
+
+/// Level-synchronous BFS over all configurations: every configuration completes depth d (oracle in
+/// every state of the level, then expansion) before any starts depth d+1, so a wall cap cuts all of
+/// them at the same depth.  All states of a level (across configurations) are processed in parallel;
+/// successors are merged sequentially in task order (deterministic counts).
+fn explore_all(r: &Report, searches: &mut [Search], memo: &Memo, budget_frac: f64) {
+    let max_depth = searches.iter().map(|s| s.sh.cx.cfg.depth).max().unwrap_or(0);
+    for depth in 0..=max_depth {
+        let over = r.over_budget_frac(budget_frac);
+        let mut tasks: Vec<(usize, World, Vec<String>)> = Vec::new();
+        for (ci, s) in searches.iter_mut().enumerate() {
+            if s.finished {
+                continue;
+            }
+            if depth > s.sh.cx.cfg.depth || s.frontier.is_empty() {
+                s.finished = true;
+                continue;
+            }
+            if over {
+                s.res.capped = true;
+                s.finished = true;
+                continue;
+            }
+            for (w, p) in std::mem::take(&mut s.frontier) {
+                tasks.push((ci, w, p));
+            }
+        }
+        if tasks.is_empty() {
             break;
         }
-        if r.over_budget_frac(budget_frac) {
-            res.capped = true;
-            break;
-        }
-        let expand = depth < cfg.depth;
-        let results: Vec<(Out, Vec<([u8; 32], World, Vec<String>)>, bool)> = frontier
+        let shared: Vec<&Shared> = searches.iter().map(|s| &s.sh).collect();
+        let results: Vec<(usize, Out, Vec<([u8; 32], World, Vec<String>)>, bool)> = tasks
             .into_par_iter()
-            .map(|(w, path): (World, Vec<String>)| {
+            .map(|(ci, w, path): (usize, World, Vec<String>)| {
+                let s: &Shared = shared[ci];
+                let cx = &s.cx;
+                let expand = depth < cx.cfg.depth;
                 let (w, path) = (&w, &path);
                 let mut out = Out::default();
                 if r.over_budget_frac(budget_frac) {
-                    return (out, Vec::new(), false);
+                    return (ci, out, Vec::new(), false);
                 }
                 // the order-freedom oracle in THIS state
-                oracle(cx, w, xs, memo, path, &mut out);
+                oracle(cx, w, &s.xs, memo, path, &mut out);
                 for v in out.viol.iter_mut() {
                     if v.2.is_null() {
                         v.2 = json!({"config": cx.cfg.name, "path": path, "in": "permutation-oracle"});
@@ -960,11 +1073,11 @@ fn explore(r: &Report, cx: &Ctx, xs: &[Vec<Sym>], memo: &Memo, budget_frac: f64)
                 }
                 let mut succ = Vec::new();
                 if expand {
-                    for op in &ops {
+                    for op in &s.ops {
                         let mut w2 = w.clone();
                         match op {
-                            Op::Ingest(s) => {
-                                step_ingest(cx, &mut w2, *s, true, &mut out);
+                            Op::Ingest(sym) => {
+                                step_ingest(cx, &mut w2, *sym, true, &mut out);
                             }
                             Op::Tick => {
                                 step_tick(cx, &mut w2, &mut out);
@@ -980,33 +1093,32 @@ fn explore(r: &Report, cx: &Ctx, xs: &[Vec<Sym>], memo: &Memo, budget_frac: f64)
                         if w2.m.desync {
                             continue;
                         }
-                        succ.push((key(&w2), w2, p2));
+                        succ.push((state_key(&w2), w2, p2));
                     }
                 }
-                (out, succ, true)
+                (ci, out, succ, true)
             })
             .collect();
-        let mut next = Vec::new();
-        for (out, succ, done) in results {
+        drop(shared);
+        for (ci, out, succ, done) in results {
+            let s = &mut searches[ci];
             if !done {
-                res.capped = true;
+                s.res.capped = true;
+                s.finished = true;
             }
             flush(r, out);
             for (k, w2, p2) in succ {
-                res.transitions += 1;
-                if seen.insert(k) {
-                    res.states += 1;
-                    next.push((w2, p2));
+                s.res.transitions += 1;
+                if s.seen.insert(k) {
+                    s.res.states += 1;
+                    s.frontier.push((w2, p2));
                 }
             }
-        }
-        res.max_depth = depth;
-        frontier = next;
-        if res.capped {
-            break;
+            if done && !s.res.capped {
+                s.res.max_depth = depth;
+            }
         }
     }
-    res
 }
 
 fn flush(r: &Report, out: Out) {
@@ -1443,8 +1555,8 @@ fn main() {
     // concurrently, so a wall cap stops all of them at the depth each has completed.
     let frac = if r.quick() { 0.9 } else { 0.33 };
     let thorough = r.thorough();
-    let results: Vec<(Value, String, usize, usize, Option<Vec<String>>, BfsResult)> = cfgs
-        .into_par_iter()
+    let mut searches: Vec<Search> = cfgs
+        .into_iter()
         .map(|cfg| {
             let keys: Vec<WriterHeadKey> =
                 cfg.heads.iter().map(|(w, h, _)| head_key(*w, *h)).collect();
@@ -1482,14 +1594,23 @@ fn main() {
                     }
                 }
             }
-            let res = explore(&r, &cx, &xs, &memo, frac);
+            Search::new(cx, xs)
+        })
+        .collect();
+    explore_all(&r, &mut searches, &memo, frac);
+    let results: Vec<(Value, String, usize, usize, Option<Vec<String>>, BfsResult)> = searches
+        .into_iter()
+        .map(|s| {
             (
-                cx.cfg.to_json(),
-                cx.cfg.name.clone(),
-                cx.cfg.depth,
-                xs.len(),
-                xs.last().map(|x| x.iter().map(|s| sym_name(*s)).collect::<Vec<_>>()),
-                res,
+                s.sh.cx.cfg.to_json(),
+                s.sh.cx.cfg.name.clone(),
+                s.sh.cx.cfg.depth,
+                s.sh.xs.len(),
+                s.sh
+                    .xs
+                    .last()
+                    .map(|x| x.iter().map(|y| sym_name(*y)).collect::<Vec<_>>()),
+                s.res,
             )
         })
         .collect();
